@@ -30,8 +30,10 @@ LEVEL = "model_checking"
 TABLE_APIS = ["read", "chunked", "merge_readers", "rows_df", "rows_dicts", "rows_records"]
 FORMATS = [("csv", ".csv"), ("parquet", ".parquet"), ("csv", ".tab"), ("parquet", ".parquet")]
 # strictly increasing, exactly representable (dyadic) scores: text round trips cannot move them
-SCALES = {"lin": (0.5, -2.25), "big": (1024.0, -4096.0), "small": (1.0 / 1024.0, -1.0 / 512.0)}
-SCALE_NAMES = ["lin", "big", "small"]
+# "mixed": every second score is a whole number, and a text input writes it without a decimal point ("3", not "3.0"): a short read chunk
+# of such rows is type-inferred as integers, the next one as floats
+SCALES = {"lin": (0.5, -2.25), "big": (1024.0, -4096.0), "small": (1.0 / 1024.0, -1.0 / 512.0), "mixed": (0.5, -2.0)}
+SCALE_NAMES = ["lin", "big", "small", "mixed"]
 COLUMNS = ["id", "score", "pay", "txt"]
 # the same four columns under names that are not Python identifiers (what mokapot's own result files use)
 STYLED = ["PSM id", "mokapot score", "pay-load", "mokapot q-value"]
@@ -84,7 +86,8 @@ def write_inputs(d: Path, inputs, fmt, ext, scale, names=COLUMNS, tag="in", null
             with open(p, "w") as fh:
                 fh.write("\t".join(names) + "\n")
                 for k in range(n):
-                    fh.write("%s\t%r\t%d\t%s\n" % (ids[k], sc[k], pay[k], txt[k]))
+                    stxt = ("%d" % sc[k]) if (scale == "mixed" and float(sc[k]).is_integer()) else repr(sc[k])
+                    fh.write("%s\t%s\t%d\t%s\n" % (ids[k], stxt, pay[k], txt[k]))
         paths.append(p)
     return paths
 
@@ -215,7 +218,7 @@ def make_case(idx, impl, desc, inputs, **fixed):
          "rchunk": 1 + (idx // 2) % (nmax + 1),
          "api": "merge_sort" if impl == "rowdict" else TABLE_APIS[(idx // 3) % len(TABLE_APIS)],
          "ochunk": 1 + (idx // 5) % (total + 1),
-         "scale": (SCALE_NAMES + ["inf"])[(idx // 7) % 4] if desc else SCALE_NAMES[(idx // 7) % 3],
+         "scale": (SCALE_NAMES + ["inf"])[(idx // 7) % 5] if desc else SCALE_NAMES[(idx // 7) % 4],
          "default_desc": bool((idx // 11) % 2),
          "styled": bool((idx // 4) % 3 == 1), "nullpay": bool((idx // 9) % 2 == 1),
          "history": [None, None, "abandoned", "interleaved"][(idx // 6) % 4] if impl == "rowdict" else None}
@@ -260,9 +263,13 @@ def break_sortedness(rng, inputs, desc, top):
 
 
 def signature(c, failed_trace=None):
+    # input-side classification: with the "mixed" scale a text input whose first two scores are whole numbers (written without a decimal
+    # point) is type-inferred as an integer column, another one as a float column (finding F-14a: the table merger refuses such inputs)
+    heads = {all(r % 2 == 0 for r in s[:2]) for s in c["inputs"] if s} if (c["scale"] == "mixed" and c["fmt"] == "csv") else set()
     return {"impl": c["impl"], "api": c["api"], "desc": c["desc"], "fmt": c["fmt"], "ext": c["ext"],
             "rchunk": c["rchunk"], "ochunk": c["ochunk"], "scale": c["scale"], "inputs": c["inputs"],
-            "sorted_as_declared": all(is_sorted(s, c["desc"]) for s in c["inputs"])}
+            "sorted_as_declared": all(is_sorted(s, c["desc"]) for s in c["inputs"]),
+            "head_types_differ": len(heads) == 2, "rtype": (failed_trace or {}).get("rtype", "")}
 
 
 # ---------------------------------------------------------------- negative controls
@@ -455,7 +462,7 @@ def run(ctx):
     for tid, c in enumerate(cases, 1):
         v = verdicts[tid]
         if not v["accept"]:
-            ctx.reject({"case": c, "trace": traces[tid - 1]}, v["failed"], signature(c))
+            ctx.reject({"case": c, "trace": traces[tid - 1]}, v["failed"], signature(c, traces[tid - 1]))
 
     # ---------------- negative controls ----------------
     ctx.phase("negative_controls")
@@ -517,7 +524,7 @@ def replay(ctx, case):
     tr["tid"] = 1
     v = ctx.validate("MergeTrace", "Trace.cfg", [tr])[1]
     if not v["accept"]:
-        ctx.reject({"case": c, "trace": tr}, v["failed"], signature(c))
+        ctx.reject({"case": c, "trace": tr}, v["failed"], signature(c, tr))
     ctx.count(1)
     ctx.count(2)
     ctx.sample(tr)
